@@ -95,3 +95,24 @@ fn re_slice_with_step(w: &mut Zoo, words: &[String], #[step] s: &Step) {
 fn expr_no_params(w: &mut Zoo) {
     w.n += 1;
 }
+
+/// A `Result` spelled through a type alias whose name is not `Result`: still a fallible step.
+pub type Fallible = Result<(), String>;
+
+#[given("a step returning an aliased result")]
+fn alias_sync_result(w: &mut Zoo) -> Fallible {
+    w.n += 1;
+    Ok(())
+}
+
+#[when(regex = r"^an async step (\d+) returning an aliased result$")]
+async fn alias_async_result(w: &mut Zoo, n: i64) -> Fallible {
+    w.n += n;
+    Ok(())
+}
+
+#[then("a step returning an io result")]
+fn io_result(w: &mut Zoo) -> std::io::Result<()> {
+    w.n += 1;
+    Ok(())
+}
